@@ -108,7 +108,18 @@ func formatArrayTypeName(v string) string {
 
 //ExtractValue info
 func ExtractValue(v reflect.Value, extractor ValueExtractor) {
-	v = RawValue(v)
+	// follow pointers and interfaces down to the value; a nil pointer still tells its element
+	// type, which is walked with a zero value so that the types behind it are found as well
+	for v.Kind() == reflect.Ptr || v.Kind() == reflect.Interface {
+		if v.IsNil() {
+			if v.Kind() == reflect.Interface {
+				return
+			}
+			v = reflect.New(v.Type().Elem()).Elem()
+			continue
+		}
+		v = v.Elem()
+	}
 
 	if !extractor(v) {
 		return
